@@ -83,6 +83,10 @@ def extend(arr: List[Any], length: int) -> List[Any]:
 
 
 def extend_all(lists: List[List[Any]]) -> List[List[Any]]:
+    if not all(lists):
+        # A part without any value (a required reference cut off by the recursion
+        # limit, e.g. two structures that refer to each other): no combination.
+        return [[] for _ in lists]
     max_len = max(len(part) for part in lists)
     max_len = min(1000, max_len)
     return [extend(part, max_len) for part in lists]
